@@ -1955,11 +1955,36 @@ def iteration_sequence_check(ctx, pool):
             ctx.violation(f"iters:{f}:{dd}", {"kind": "input", "lines": [f"position {f}", f"go depth {dd}"], "what": f"completed iterations {seq} / final depth {done} for go depth {dd} with {cnt} legal moves", "output": got[-5:]})
 
 
+MATE_THEMES = [
+    "k7/pPK5/8/8/8/8/8/8 b - - 0 1",             # mated by a pawn, mating side has no officer
+    "k7/p1K5/1P6/8/8/8/8/8 w - - 0 1",           # pawn mate in one
+    "k7/2K5/1P6/8/8/8/8/8 w - - 0 1",            # king and pawn, promotion mate later
+    "k7/P7/K7/8/8/8/8/8 b - - 0 1",              # stalemate by king and pawn
+    "6rk/6pp/8/6N1/8/8/8/6K1 w - - 0 1",         # smothered mate in one
+    "6k1/5ppp/8/8/8/8/8/R5K1 w - - 0 1",         # back-rank mate in one
+    "6k1/4P3/6K1/8/8/8/8/8 w - - 0 1",           # promotion mate in one (queen or rook)
+    "7k/5K2/8/6N1/8/8/8/7B w - - 0 1",           # bishop and knight
+    "7k/8/5K2/8/8/8/8/6R1 w - - 0 1",            # rook: mate in two
+    "5k2/8/5K2/8/8/8/8/Q7 w - - 0 1",            # queen: mate in one, several ways
+    "4k3/8/4K3/8/8/8/8/R6R w - - 0 1",           # two rooks
+    "r3k2r/8/8/8/8/8/8/4K2R b kq - 0 1",         # castling available to the mating side
+    "7k/8/8/8/2b5/8/PP6/K5r1 w - - 0 1",         # in check, single reply
+    "7k/7P/6K1/8/8/8/8/8 b - - 0 1",             # stalemate: king behind the enemy pawn
+    "8/8/8/8/8/5k2/5p2/5K2 w - - 0 1",           # stalemate, pawn in front of the king
+    "5k2/5P2/5K2/8/8/8/8/8 b - - 0 1",           # stalemate, mirrored colours of the previous
+    "8/8/8/8/1pP5/8/k1K5/8 b - c3 0 1",          # en passant available while short of moves
+    "1k6/1P6/1K6/8/8/8/8/7B w - - 0 1",          # bishop + pawn, mate in two
+    "k7/8/1K6/8/8/8/8/7R w - - 0 1",             # rook mate in one
+    "kr6/pp6/8/1N6/8/8/8/K7 w - - 0 1",          # smothered corner: Nc7 mate
+]
+
+
 def mate_positions(ctx, n):
     """sparse constructive positions; the AND/OR specification decides forced mates up to 3 plies"""
     rng = ctx.rng
     cands = []
-    mats = ["Q", "R", "RR", "QR", "QQ", "RB", "QN", "BB", "RN", "Qp", "Rp", "QPp", "RRp"]
+    mats = ["Q", "R", "RR", "QR", "QQ", "RB", "QN", "BB", "RN", "Qp", "Rp", "QPp", "RRp",
+            "P", "PP", "PPp", "Pp", "NN", "BN", "NNP", "BP", "NP", "PPP"]      # incl. attackers without officers
     for _ in range(n * 6):
         b = [["." for _ in range(8)] for _ in range(8)]
         # defender king near the edge, attacker king nearby
@@ -1989,7 +2014,15 @@ def mate_positions(ctx, n):
             others.append((f, "none"))
     rng.shuffle(mates)
     rng.shuffle(others)
-    return mates[:n], others[:n // 2]
+    # thematic mates and stalemates, one per mating piece kind / mechanism, always included (with colour mirrors):
+    # the specification classifies them like every other candidate
+    themes = gens.legal_filter(list(dict.fromkeys(MATE_THEMES + [gens.mirror_fen(f) for f in MATE_THEMES])))
+    tres = run_batch(MDRV, [f"smate\t{f}\t3" for f in themes], shards=infra.NCPU, timeout_per_op=120.0)
+    tm = [(f, r[3:]) for f, r in zip(themes, tres) if r and (r.startswith("ok win") or r.startswith("ok lose"))]
+    to = [(f, "none") for f, r in zip(themes, tres) if r == "ok none"]
+    ctx.bump("mate_themes", len(tm) + len(to))
+    have = set(f for f, _ in tm + to)
+    return tm + [x for x in mates if x[0] not in have][:n], to + [x for x in others if x[0] not in have][:n // 2]
 
 
 def check_C05(ctx):
